@@ -1475,11 +1475,11 @@ def extend_trial_data_file(
     """
     # Use unique seed to generate non identical trials.
     if rss.seed in trial_data['seed']:
+        used_seeds = set(np.unique(trial_data['seed']).tolist())
         seed = next(
             i
-            for (i, e) in enumerate(
-                sorted(np.unique(trial_data['seed'])) + [None], 1)
-            if i != e)
+            for i in itertools.count(1)
+            if i not in used_seeds)
         rss.reseed(seed)
 
     (seed, mean_n_sig, mean_n_sig_null, trials) = create_trial_data_file(
